@@ -31,11 +31,11 @@ fn c14_size_budget() {
     let id = ScmpInternalConnectivityDownLayout::from_offending_packet_length(len, h).size_bytes();
     assert!(h + du <= 1232 && h + tb <= 1232 && h + pp <= 1232 && h + ed <= 1232 && h + id <= 1232, "SCMP error longer than 1232 bytes");
     // as much as possible is quoted: everything, or the budget is used up
-    assert!(du >= 8 && tb >= 8 && pp >= 8 && ed >= 24 && id >= 32, "SCMP error shorter than its fixed part");
+    assert!(du >= 8 && tb >= 8 && pp >= 8 && ed >= 20 && id >= 28, "SCMP error shorter than its fixed part");
     let all = |sz: usize, fixed: usize| sz - fixed == len || h + sz == 1232;
-    assert!(all(du, 8) && all(tb, 8) && all(pp, 8) && all(ed, 24) && all(id, 32), "offending packet quoted neither fully nor up to the budget");
+    assert!(all(du, 8) && all(tb, 8) && all(pp, 8) && all(ed, 20) && all(id, 28), "offending packet quoted neither fully nor up to the budget");
     kani::cover!(h + pp == 1232 && len > 2000, "truncated quote");
-    kani::cover!(8 + len == pp, "full quote");
+    kani::cover!(pp - 8 == len, "full quote");
 }
 
 fn rfc1071(data: &[u8], len: usize) -> u32 {
@@ -55,9 +55,12 @@ fn fold(mut s: u32) -> u16 {
     s as u16
 }
 
+/// Concrete addresses: the pseudo-header part of the checksum with symbolic addresses is decided by
+/// c03_udp_checksum_*; here the message part is symbolic (two summation orders over ~50 symbolic
+/// bytes cost CBMC > 15 min, over the message alone a few minutes).
 fn addrs() -> (ScionAddr, ScionAddr) {
-    let src = ScionAddr::new(IsdAsn::from_u64(kani::any()), Ipv4Addr::from(kani::any::<[u8; 4]>()).into());
-    let dst = ScionAddr::new(IsdAsn::from_u64(kani::any()), Ipv4Addr::from(kani::any::<[u8; 4]>()).into());
+    let src = ScionAddr::new(IsdAsn::from_u64(0x0001_ff00_0000_0110), Ipv4Addr::new(10, 1, 2, 3).into());
+    let dst = ScionAddr::new(IsdAsn::from_u64(0x0002_ff00_0000_0220), Ipv4Addr::new(192, 0, 2, 77).into());
     (src, dst)
 }
 
@@ -91,9 +94,9 @@ fn check_encoded(msg: ScmpMessage, ty: u8, fixed: usize, off: &[u8], qlen: usize
     std::mem::forget(bytes);
 }
 
-const Q: usize = 12;
+const Q: usize = 4; // quoted bytes: the checksum equivalence (two summation orders) is what costs SAT time
 
-// verif: prop=C14 tier=quick cap=900 rot=enc bound="parameter problem: any code/pointer, 12 offending bytes, IPv4 addresses, empty path; all values" fns="ScmpParameterProblem::{required_size,encode_unchecked},ScionPacket::<ScmpMessage>::try_encode_to_vec,ChecksumDigest::with_pseudoheader" stubs="none"
+// verif: prop=C14 tier=quick cap=900 bound="parameter problem: any code/pointer, 4 offending bytes, fixed IPv4 addresses, empty path; all message values" fns="ScmpParameterProblem::{required_size,encode_unchecked},ScionPacket::<ScmpMessage>::try_encode_to_vec,ChecksumDigest::with_pseudoheader" stubs="none"
 #[kani::proof]
 #[kani::unwind(40)]
 fn c14_encode_param_problem() {
@@ -102,16 +105,16 @@ fn c14_encode_param_problem() {
     check_encoded(m.into(), 4, 8, &off, Q);
 }
 
-// verif: prop=C14 tier=quick cap=900 rot=enc bound="external interface down: any ISD-AS/interface, 12 offending bytes" fns="ScmpExternalInterfaceDown::{required_size,encode_unchecked}" stubs="none"
+// verif: prop=C14 tier=thorough cap=2400 bound="external interface down: any ISD-AS/interface, 4 offending bytes" fns="ScmpExternalInterfaceDown::{required_size,encode_unchecked}" stubs="none"
 #[kani::proof]
 #[kani::unwind(40)]
 fn c14_encode_ext_if_down() {
     let off: [u8; Q] = kani::any();
     let m = ScmpExternalInterfaceDown::new(IsdAsn::from_u64(kani::any()), kani::any(), off.to_vec());
-    check_encoded(m.into(), 5, 24, &off, Q);
+    check_encoded(m.into(), 5, 20, &off, Q);
 }
 
-// verif: prop=C14 tier=quick cap=900 rot=enc2 bound="destination unreachable: any code, 12 offending bytes" fns="ScmpDestinationUnreachable::{required_size,encode_unchecked}" stubs="none"
+// verif: prop=C14 tier=quick cap=900 rot=enc2 bound="destination unreachable: any code, 4 offending bytes" fns="ScmpDestinationUnreachable::{required_size,encode_unchecked}" stubs="none"
 #[kani::proof]
 #[kani::unwind(40)]
 fn c14_encode_dest_unreachable() {
@@ -120,7 +123,7 @@ fn c14_encode_dest_unreachable() {
     check_encoded(m.into(), 1, 8, &off, Q);
 }
 
-// verif: prop=C14 tier=quick cap=900 rot=enc2 bound="packet too big: any MTU, 12 offending bytes" fns="ScmpPacketTooBig::{required_size,encode_unchecked}" stubs="none"
+// verif: prop=C14 tier=quick cap=900 rot=enc2 bound="packet too big: any MTU, 4 offending bytes" fns="ScmpPacketTooBig::{required_size,encode_unchecked}" stubs="none"
 #[kani::proof]
 #[kani::unwind(40)]
 fn c14_encode_too_big() {
@@ -129,13 +132,13 @@ fn c14_encode_too_big() {
     check_encoded(m.into(), 2, 8, &off, Q);
 }
 
-// verif: prop=C14 tier=thorough cap=2000 bound="internal connectivity down: any ISD-AS/interfaces, 12 offending bytes" fns="ScmpInternalConnectivityDown::{required_size,encode_unchecked}" stubs="none"
+// verif: prop=C14 tier=thorough cap=2000 bound="internal connectivity down: any ISD-AS/interfaces, 4 offending bytes" fns="ScmpInternalConnectivityDown::{required_size,encode_unchecked}" stubs="none"
 #[kani::proof]
 #[kani::unwind(40)]
 fn c14_encode_int_conn_down() {
     let off: [u8; Q] = kani::any();
     let m = ScmpInternalConnectivityDown::new(IsdAsn::from_u64(kani::any()), kani::any(), kani::any(), off.to_vec());
-    check_encoded(m.into(), 6, 32, &off, Q);
+    check_encoded(m.into(), 6, 28, &off, Q);
 }
 
 // verif: prop=C14 tier=thorough cap=3000 mem=24 bound="parameter problem quoting a 1300-byte offending packet: truncated to the 1232-byte budget, quoted prefix, checksum" fns="ScmpParameterProblem::encode_unchecked with truncation" stubs="none"
@@ -156,9 +159,10 @@ fn c14_encode_truncated() {
 fn echo(reply: bool) {
     let id: u16 = kani::any();
     let seq: u16 = kani::any();
-    let data: [u8; 6] = kani::any();
+    const D: usize = 3;
+    let data: [u8; D] = kani::any();
     let j: usize = kani::any();
-    kani::assume(j < 6);
+    kani::assume(j < D);
     let (src, dst) = addrs();
     let msg: ScmpMessage = if reply { ScmpEchoReply::new(id, seq, data.to_vec()).into() } else { ScmpEchoRequest::new(id, seq, data.to_vec()).into() };
     let pkt = ScionScmpPacket::new(src, dst, DpPath::Empty, msg);
@@ -166,7 +170,7 @@ fn echo(reply: bool) {
         assert!(false, "echo message refused by the encoder");
         return;
     };
-    assert!(bytes.len() == 36 + 8 + 6);
+    assert!(bytes.len() == 36 + 8 + D);
     assert!(bytes[36] == if reply { 129 } else { 128 } && bytes[37] == 0, "echo type/code wrong");
     assert!(u16::from_be_bytes([bytes[40], bytes[41]]) == id && u16::from_be_bytes([bytes[42], bytes[43]]) == seq, "identifier / sequence number not at their wire position");
     assert!(bytes[44 + j] == data[j], "echo data differs");
@@ -177,10 +181,10 @@ fn echo(reply: bool) {
     assert!(rest.is_empty());
     match v.scmp().message() {
         ScmpMessageView::EchoRequest(m) => {
-            assert!(!reply && m.identifier() == id && m.sequence_number() == seq && m.data()[j] == data[j] && m.data().len() == 6);
+            assert!(!reply && m.identifier() == id && m.sequence_number() == seq && m.data()[j] == data[j] && m.data().len() == D);
         }
         ScmpMessageView::EchoReply(m) => {
-            assert!(reply && m.identifier() == id && m.sequence_number() == seq && m.data()[j] == data[j] && m.data().len() == 6);
+            assert!(reply && m.identifier() == id && m.sequence_number() == seq && m.data()[j] == data[j] && m.data().len() == D);
         }
         _ => {
             assert!(false, "echo message decoded as another SCMP type");
@@ -188,22 +192,22 @@ fn echo(reply: bool) {
     }
     let mut sum: u32 = 0;
     sum += rfc1071(&bytes[12..], 24);
-    sum += 14;
+    sum += (8 + D) as u32;
     sum += 202;
-    sum += rfc1071(&bytes[36..], 14);
+    sum += rfc1071(&bytes[36..], 8 + D);
     assert!(fold(sum) == 0xffff, "echo checksum does not verify");
     std::mem::forget(pkt);
     std::mem::forget(bytes);
 }
 
-// verif: prop=C14 tier=quick cap=900 bound="echo request: any identifier/sequence number, 6 data bytes, IPv4, empty path" fns="ScmpEchoRequest::encode_unchecked,ScmpPayloadView::message,ScmpEchoRequestMessageView" stubs="none"
+// verif: prop=C14 tier=quick cap=900 bound="echo request: any identifier/sequence number, 3 data bytes, IPv4, empty path" fns="ScmpEchoRequest::encode_unchecked,ScmpPayloadView::message,ScmpEchoRequestMessageView" stubs="none"
 #[kani::proof]
 #[kani::unwind(40)]
 fn c14_echo_request_codec() {
     echo(false)
 }
 
-// verif: prop=C14 tier=quick cap=900 bound="echo reply: any identifier/sequence number, 6 data bytes" fns="ScmpEchoReply::encode_unchecked,ScmpEchoReplyMessageView" stubs="none"
+// verif: prop=C14 tier=thorough cap=2000 bound="echo reply: any identifier/sequence number, 3 data bytes" fns="ScmpEchoReply::encode_unchecked,ScmpEchoReplyMessageView" stubs="none"
 #[kani::proof]
 #[kani::unwind(40)]
 fn c14_echo_reply_codec() {
